@@ -65,8 +65,12 @@ func (i *imports) RegisterPrefixAlias(alias string, path string) error {
 // Alias generates an alias for given path and adds path to collection of all imports.
 // See Imports.
 func (i *imports) Alias(import_ string) string {
-	import_ = i.decorateImport(import_)
+	return i.AliasAbsolute(i.decorateImport(import_))
+}
 
+// AliasAbsolute works like Alias, but the given path is taken literally, user-defined prefix aliases are not applied.
+// It is used for the packages imported by the generated code itself (fmt, errors, gontainer-helpers, ...).
+func (i *imports) AliasAbsolute(import_ string) string {
 	if imp, ok := i.imports[import_]; ok {
 		return imp
 	}
